@@ -32,6 +32,21 @@ fn run_case(rt: &tokio::runtime::Runtime, c: &Conf, req: &Req, stats: &mut Stats
             let request = mk_request(req);
             let mut serverids = std::collections::HashSet::new();
             serverids.insert(request.serverip);
+            // the same loaded configuration has served another client before, on the same address, while the
+            // interface had another MTU and default route: nothing of that exchange may show in this one
+            {
+                let mut warm = mk_request(req);
+                warm.if_mtu = if req.mtu == Some(9000) { Some(1400) } else { Some(9000) };
+                warm.if_router = if req.router.is_some() { None } else { Some(std::net::Ipv4Addr::new(192, 0, 2, 254)) };
+                warm.pkt.chaddr = vec![2, 9, 9, 9, 9, 9];
+                warm.pkt.hlen = 6;
+                warm.pkt.xid = 0x0bad_cafe;
+                let ids = serverids.clone();
+                let _ = catch(|| {
+                    let mut pool = dhcp::pool::Pool::new_in_memory().expect("pool");
+                    dhcp::handle_pkt(&mut pool, &warm, ids, &conf)
+                });
+            }
             let r = catch(|| {
                 let mut pool = dhcp::pool::Pool::new_in_memory().expect("pool");
                 dhcp::handle_pkt(&mut pool, &request, serverids, &conf)
